@@ -12,7 +12,7 @@ from sa.report import Ctx
 
 from .common import generic_sweeps
 
-from .cp_common import check_alldiff_coverage, check_id_allocation, default_raises, dispatcher_tags, flattener_tags, produced_tags, shape_dispatch_falls_through, structural_len_subjects
+from .cp_common import check_alldiff_coverage, check_cumulative_horizon, check_id_allocation, check_solve_is_read_only, default_raises, dispatcher_tags, flattener_tags, produced_tags, shape_dispatch_falls_through, structural_len_subjects
 
 EXPLANATION = (
     "Decides structural necessary conditions of 'no returned assignment breaks an added constraint / INFEASIBLE only "
@@ -24,7 +24,7 @@ EXPLANATION = (
     "a total decision of every constraint (explicit leaf certifier, or O2 and O3 hold for the propagator); (O5) values "
     "derived from `hints` reach domains/assumptions only if every INFEASIBLE publication is guarded by 'no hints in "
     "force' (hint-free retry); (O6) the two copies of the SAT-required tag set agree; (O7) domains are only ever "
-    "narrowed and decode reads each named variable's own literals. (O10) each boolean-id counter is written only by its initialisation and its allocator, auxiliary variables draw their literals from the encoder's allocator, and the encoder stores nothing in the model. NOT decided: semantic correctness of each "
+    "narrowed and decode reads each named variable's own literals. (O10) each boolean-id counter is written only by its initialisation and its allocator, auxiliary variables draw their literals from the encoder's allocator, and the encoder stores nothing in the model. (O11) cumulative emits its capacity clauses for every instant up to and including the latest possible start. (O12) nothing on the solve path writes a field of the model. NOT decided: semantic correctness of each "
     "propagator/encoding, back-end agreement."
 )
 
@@ -127,6 +127,8 @@ def run(ctx: Ctx):
     check_exact_division(ctx)
     check_alldiff_coverage(ctx, "C05-O9")
     check_id_allocation(ctx, "C05-O10")
+    check_cumulative_horizon(ctx, "C05-O11")
+    check_solve_is_read_only(ctx, "C05-O12")
     generic_sweeps(ctx, skip_stutter_modules=("solvor/sat.py",))
 
 
@@ -317,6 +319,24 @@ def _v_aux_registered(tree):
     M.replace_stmt(g, lambda s: isinstance(s, ast.Return), lambda s: M.stmts("self.model._vars[name] = var") + [s])
 
 
+def _v_cumulative_last_start_unchecked(tree):
+    g = M.find_func(tree, "SATEncoder._encode_cumulative")
+    M.replace_expr(g, lambda e: M.src_is(e, "max((s.ub + d for s, d in zip(starts, durations)))"), M.expr("max((s.ub for s in starts))"))
+
+
+def _t_cumulative_start_instants(tree):
+    """equally valid: scan up to and including the latest start"""
+    g = M.find_func(tree, "SATEncoder._encode_cumulative")
+    M.replace_expr(g, lambda e: M.src_is(e, "max((s.ub + d for s, d in zip(starts, durations)))"), M.expr("max((s.ub for s in starts))"))
+    M.replace_expr(g, lambda e: M.src_is(e, "range(min_start, max_end)"), M.expr("range(min_start, max_end + 1)"))
+
+
+def _v_dfs_plan_cached_on_model(tree):
+    g = M.find_func(tree, "Model._solve_dfs")
+    first = next(s for s in g.body if not (isinstance(s, ast.Expr) and isinstance(s.value, ast.Constant)))
+    M.replace_stmt(g, lambda s: s is first, lambda s: M.stmts("if getattr(self, '_dfs_plan', None) is None:\n    self._dfs_plan = list(self._constraints)") + [s])
+
+
 def _t_reformat(tree):
     pass
 
@@ -351,6 +371,9 @@ VARIANTS = [
     M.Variant("eq_var propagator widens a domain", CP, _v_domain_widened, "C05-O7"),
     M.Variant("auxiliary variables keep the model's literals and the encoder counter is re-synchronised (seed C05-D)", ENC, _v_resync_counter, "C05-O10"),
     M.Variant("auxiliary variables are registered in the model and re-encoded by the next solve (original defect)", ENC, _v_aux_registered, "C05-O10"),
+    M.Variant("cumulative scans start instants with an exclusive upper end (seeds C05-E / C06-F)", ENC, _v_cumulative_last_start_unchecked, "C05-O11"),
+    M.Variant("twin: cumulative scans up to and including the latest start", ENC, _t_cumulative_start_instants, None),
+    M.Variant("DFS constraint plan cached on the model, never invalidated by add() (seed C05-F)", CP, _v_dfs_plan_cached_on_model, "C05-O12"),
     M.Variant("twin: reformat cp", CP, _t_reformat, None),
     M.Variant("twin: reformat encoder", ENC, _t_reformat, None),
     M.Variant("twin: rename free-variable list", CP, _t_rename, None),
